@@ -97,6 +97,7 @@ type exec struct {
 	ndIndex  map[string]int
 	knownOn  string // active known-finding fence id
 
+	unknownViol int
 	violations []Violation
 	witnesses  []Witness
 	undecided  []string // reasons
@@ -280,6 +281,7 @@ func (fr *frame) choose(t *sym.Term, what string) uint64 {
 	var vals []uint64
 	lvl := e.solver.Level()
 	e.solver.Push()
+	e.solver.Define(t)
 	cap := e.lim.SplitCap
 	if cap == 0 {
 		cap = 64
